@@ -12,7 +12,10 @@ numerical computations, every history of operations and every fault position —
 import GlotaranProofs.Lemmas.C10Params
 import GlotaranProofs.Lemmas.C10Machine
 import GlotaranProofs.Lemmas.C10Race
+import GlotaranProofs.Lemmas.C10Steps
+import GlotaranProofs.Lemmas.C10Outputs
 import GlotaranModel.Generated.C10
+import GlotaranModel.Generated.C10Steps
 namespace Glotaran.C10
 
 variable {P X M D V : Type}
@@ -45,6 +48,60 @@ example : wellDefined [Loc.params, .prepared 0 "d", .matrix 0 "d", .groupParams 
 /-- … and so is a `get_full_penalty` that reads a penalty list no step of the evaluation has reset. -/
 example : wellDefined [Loc.params, .residuals 0 "d"]
     [.assign (.groupPenalty 0) "concatenate" [.residuals 0 "d", .clpPenalty 0]] = false := by decide
+
+/-! ### the micro-step list is what the source says (translator, DESIGN §5.2) -/
+
+/-- **The hand-written micro-step list of one evaluation IS the one the source gives**: the interpretation of the steps
+    table regenerated from optimizer.py / optimization_group.py / matrix_provider.py / estimation_provider.py /
+    data_provider.py / dataset_group.py on every run (every overwrite, clear, append and in-place update of a container
+    with the containers the written value is computed from, every method call, loops and branches, in program order) is
+    EQUAL to `calculatePenalty spec`, for every scheme structure.  A step the translator cannot place (unknown container,
+    `if key not in cache`, an in-place update, a store under a foreign subscript …) is interpreted as a micro-step the model
+    does not have, so this theorem stops compiling when the source changes its data flow. -/
+theorem generated_steps_eq_model (spec : Spec) :
+    interpret Generated.stepBlock Generated.penaltyBlock spec = calculatePenalty spec :=
+  (show interpret Generated.stepBlock Generated.penaltyBlock spec = sourceProgram spec from rfl).trans
+    (calculatePenalty_eq_sourceProgram spec).symm
+
+/-- `objective_function` in the source = what `Machine.eval` does: update the private parameters in place, then
+    `calculate_penalty()` -/
+theorem generated_objective_eq_model :
+    objectiveSteps Generated.stepBlock Generated.objectiveBlock Generated.penaltyBlock = evalSteps := by decide
+
+/-- **"Overwritten before read" for the program the source gives now.** -/
+theorem source_containers_overwritten_before_read (spec : Spec) (hwf : Spec.WF spec) :
+    wellDefined [Loc.params] (interpret Generated.stepBlock Generated.penaltyBlock spec) = true := by
+  rw [generated_steps_eq_model]
+  exact containers_overwritten_before_read spec hwf
+
+/-- the interpretation of the regenerated table on a linked + an unlinked group (with a full model and weights): 44
+    micro-steps, the first ones being `set_parameters` of group 0 (non-vacuity) -/
+example :
+    let spec : Spec := [⟨true, [⟨"d1", 2, 1, 0, false⟩], [["d1"], ["d1"]]⟩,
+                        ⟨false, [⟨"d2", 2, 1, 1, true⟩, ⟨"d3", 2, 2, 0, true⟩], []⟩]
+    let p := interpret Generated.stepBlock Generated.penaltyBlock spec
+    p.take 3 = [.alias (.groupParams 0) "parameters" .params, .alias (.datasetModel 0 "d1") "fill_item" .params,
+                .mark .matrix 1] ∧
+    Instr.clear (.clps 1 "d3") ∈ p ∧ Instr.clear (.clps 1 "d2") ∉ p ∧ p.length = 44 := by decide +kernel
+
+/-- the interpreter is not blind: a table in which `calculate_estimation` appends without `self._clps[label].clear()`,
+    one with a `if label not in self._matrix_containers` guard and one with a `*=` into a stored matrix are all rejected -/
+example :
+    let t : Nat → List Steps.Step := fun
+      | 0 => [.loop .groups 1]
+      | 1 => [.write ⟨.groupParameters, .whole⟩ "parameters" [⟨.parameters, .whole⟩] true, .loop .datasets 2]
+      | 2 => [.write ⟨.preparedMatrixContainer, .cur⟩ "m" [⟨.groupParameters, .whole⟩] false,
+              .append ⟨.clps, .cur⟩ "retrieve_clps" [⟨.preparedMatrixContainer, .cur⟩]]
+      | 3 => [.loop .groups 4]
+      | 4 => [.loop .datasets 5]
+      | 5 => [.branch (.unknown "label not in self._matrix_containers") 6 7]
+      | 6 => [.write ⟨.matrixContainers, .cur⟩ "m" [] false]
+      | 8 => [.inplace ⟨.matrixContainers, .cur⟩ "*="]
+      | _ => []
+    let spec : Spec := [⟨false, [⟨"d", 2, 1, 0, false⟩], []⟩]
+    wellDefined [Loc.params] (interpret t 0 spec) = false ∧
+    interpret t 3 spec = poison "steps under a condition the translator cannot classify: label not in self._matrix_containers" ∧
+    interpret t 8 spec = poison "in-place update: *=" := by decide +kernel
 
 /-- **History independence of the objective** (partial: the hypotheses `hq`, `hq₀` say that
     `set_from_label_and_value_arrays` succeeds at `x` both after the history and in the reference state — see
@@ -205,6 +262,63 @@ theorem objective_history_independent_counterexample :
     ((m₀.run ops fn [] [.eval [some 1] .none, .eval [some 2] .none, .eval [some 3] .none]).eval ops fn []
         [some 2] .none).2.isSetFailed = true := by
   refine ⟨by unfold C12.WF C12.labels; decide, ?_, ?_, ?_, ?_⟩ <;> decide +kernel
+
+/-! ## 1b. outputs: copies and live references -/
+
+/-- the statement that does NOT hold: no object handed out is a live reference to an object that a later evaluation on the
+    same `Optimizer` updates in place — `∀ spec f, aliased spec f = false`; see `outputs_not_aliased_counterexample` -/
+def OutputsNotAliased : Prop := ∀ (spec : Spec) (f : OutField), aliased spec f = false
+
+/-- **Outputs that are not live references into accumulators are safe**: the penalty vector, `initial_parameters`, the
+    matrices, clps and residuals of the result datasets, the Jacobian and the covariance matrix are either copies or views of
+    objects that later evaluations replace rather than update. -/
+theorem outputs_not_aliased_partial (spec : Spec) (f : OutField)
+    (h1 : f ≠ .optimizedParameters) (h2 : f ≠ .parameterHistory) (h3 : ∀ g, f ≠ .additionalPenalty g) :
+    aliased spec f = false := by
+  cases f <;> simp only [aliased, provenance, decide_eq_false_iff_not] <;> try rfl
+  all_goals first
+    | exact absurd rfl h1
+    | exact absurd rfl h2
+    | exact absurd rfl (h3 _)
+    | (intro hm
+       rcases evalInPlace_accumulator spec _ hm with h | h
+       · cases h
+       · simp [Loc.isAccumulator] at h)
+
+/-- the hypotheses of the partial theorem are satisfiable and its conclusion is not trivial: the matrix of a result dataset
+    IS a live view (of an object that is replaced, not updated) -/
+example : provenance [] (.dataMatrix 0 "d") = .live (.matrix 0 "d") ∧
+    aliased [⟨false, [⟨"d", 2, 1, 0, false⟩], []⟩] (.dataMatrix 0 "d") = false := by decide
+
+/-- **Counter-example to `OutputsNotAliased` (recorded observation, outside the property text — see MANIFEST)**:
+    `Result.optimized_parameters` IS `Optimizer._parameters`, `Result.parameter_history` IS `Optimizer._parameter_history`
+    and, for an unlinked group, `Result.additional_penalty[g]` IS the list `_clp_penalty` that `estimate()` clears and
+    refills; for a linked group that list is re-assigned, so the one handed out stays.  `optimize()` never evaluates after
+    `create_result`, so its results are not affected; code that keeps the `Optimizer` and evaluates again is. -/
+theorem outputs_not_aliased_counterexample :
+    let spec : Spec := [⟨false, [⟨"d1", 2, 1, 0, false⟩], []⟩, ⟨true, [⟨"d2", 2, 1, 0, false⟩], [["d2"], ["d2"]]⟩]
+    aliased spec .optimizedParameters = true ∧ aliased spec .parameterHistory = true ∧
+    aliased spec (.additionalPenalty 0) = true ∧ aliased spec (.additionalPenalty 1) = false ∧
+    aliased spec (.dataMatrix 0 "d1") = false ∧ aliased spec .penalty = false ∧ ¬ OutputsNotAliased := by
+  refine ⟨by decide +kernel, by decide +kernel, by decide +kernel, by decide +kernel, by decide +kernel, by decide +kernel, ?_⟩
+  intro h
+  exact absurd (h [] .optimizedParameters) (by decide)
+
+/-- **The penalty vector handed out is a copy, for the program the source gives now**: the last micro-step of the
+    interpretation of the regenerated table stores a NEW value into the returned object (`assign`, not a reference), and
+    no micro-step updates that object in place. -/
+theorem penalty_output_is_copy (spec : Spec) :
+    (interpret Generated.stepBlock Generated.penaltyBlock spec).getLast? =
+      some (.assign .out "concatenate" ((List.range spec.length).map Loc.groupPenalty)) ∧
+    Loc.out ∉ inPlace (interpret Generated.stepBlock Generated.penaltyBlock spec) := by
+  rw [generated_steps_eq_model]
+  refine ⟨?_, ?_⟩
+  · unfold calculatePenalty collect
+    rw [← List.append_assoc, List.getLast?_append]
+    simp
+  · intro h
+    have := mem_inPlace_of_all _ (all_ok_calculatePenalty spec) _ h
+    simp [Loc.isAccumulator] at this
 
 /-! ## 2. the caller's inputs -/
 
